@@ -553,6 +553,45 @@ func c20Run(e *core.Env) {
 		e.SetBound(fmt.Sprintf("journal_depth_alphabet%d", len(pl.alpha)), pl.n)
 	}
 	e.BeginTail()
+	if e.Take() {
+		// several --account / --commodity expressions are a union: the report equals the one
+		// for the alternation of the expressions. The two performance stages evaluate the same
+		// filter objects on neighbouring days at the same time, so the comparison is made on the
+		// free-running binary (a 2000-day journal, all CPUs, repeated) and the filtered
+		// pipeline scenarios run under the race detector.
+		drv := e.Driver()
+		var b strings.Builder
+		b.WriteString("2019-12-31 open Assets:Alpha\n2019-12-31 open Assets:Beta\n2019-12-31 open Assets:Other\n2019-12-31 open Equity:Opening\n2019-12-31 price AAA 2 CHF\n2019-12-31 price BBB 3 CHF\n2019-12-31 price CCC 5 CHF\n")
+		d0 := time.Date(2020, 1, 1, 0, 0, 0, 0, time.UTC)
+		for i := 0; i < 2000; i++ {
+			d := d0.AddDate(0, 0, i).Format("2006-01-02")
+			fmt.Fprintf(&b, "%s \"a\"\nEquity:Opening Assets:Alpha 1 AAA\n\n%s \"b\"\nEquity:Opening Assets:Beta 1 BBB\n\n%s \"c\"\nEquity:Opening Assets:Other 1 CCC\n\n", d, d, d)
+		}
+		drv.Files(map[string]string{"j.knut": b.String()})
+		for _, fl := range [][2][]string{
+			{{"--account", "Alpha", "--account", "Beta"}, {"--account", "Alpha|Beta"}},
+			{{"--commodity", "AAA", "--commodity", "BBB"}, {"--commodity", "AAA|BBB"}},
+		} {
+			base := []string{"portfolio", "returns", "-v", "CHF", "--years"}
+			want := drv.RunBinaryFree(2*time.Minute, append(append(append([]string(nil), base...), fl[1]...), "j.knut")...)
+			e.Count("command_runs")
+			if want.Exit != 0 || want.Abnormal() != "" {
+				e.Violation("C20:command-failed:two-expressions", want.Stderr+want.Abnormal(), c20Case{}, nil)
+				break
+			}
+			for rep := 0; rep < core.Pick(e, 6, 20); rep++ {
+				e.Beat()
+				o := drv.RunBinaryFree(2*time.Minute, append(append(append([]string(nil), base...), fl[0]...), "j.knut")...)
+				e.Count("command_runs")
+				e.Count("evaluations")
+				if o.Exit != want.Exit || o.Stdout != want.Stdout {
+					e.Violation("C20:filter-union-differs", fmt.Sprintf("knut portfolio returns -v CHF --years %s (run %d):\n%s%s\nwith %s:\n%s", strings.Join(fl[0], " "), rep, o.Stdout, o.Stderr, strings.Join(fl[1], " "), want.Stdout), c20Case{}, nil)
+					break
+				}
+			}
+		}
+		raceTier(e, core.Pick(e, 4, 16), "C20", "pipe-returns")
+	}
 	// position life histories (see positionChains): portfolios that become empty and are funded again
 	chainN := core.Pick(e, 4, 5)
 	chainCfgs := []c20Cfg{{V: "CHF", Interval: ref.Daily}, {V: "USD", Interval: ref.Daily}, {V: "CHF", Interval: ref.Weekly}, {V: "CHF", Interval: ref.Daily, ComRx: "AAPL"}, {V: "USD", Interval: ref.Daily, AccRx: "Portfolio"}, {V: "CHF", Interval: ref.Daily, Last: 2},
